@@ -792,6 +792,14 @@ def normalise(trees: Dict[str, ast.Module], inventory: Optional[Set[str]] = None
                 why = f"context manager: {n_cm} with-statement(s) rewritten, {left_cm} reference(s) left"
             elif isinstance(h.node, ast.AsyncFunctionDef) or _is_generator(h.node):
                 why = "generator / coroutine"
+                if not isinstance(h.node, ast.AsyncFunctionDef) and not h.bad_deco and _simple_generator_shape(h.node) is not None:
+                    n_g, left_g = _inline_generator(h, trees, imports)
+                    if n_g and not left_g:
+                        _remove_def(h, trees)
+                        report.append(f"inlined generator {h.key} into {n_g} for-loop(s); definition dropped")
+                        progress = True
+                        continue
+                    why = f"generator: {n_g} for-loop(s) rewritten, {left_g} reference(s) left"
             elif h.bad_deco:
                 why = f"decorated ({', '.join(h.bad_deco)})"
             elif h.classm:
@@ -857,6 +865,96 @@ def _reflectively_reachable(h: Helper, trees) -> bool:
         if isinstance(n, ast.ClassDef) and n.name == h.cls:
             return any(h.node.name.startswith(p) for p in _getattr_prefixes(n))
     return False
+
+
+def _simple_generator_shape(fnode):
+    """(pre statements, the loop, index of the yield in the loop body) for a generator of the form
+         <simple statements>; for/while ...: <guards with continue>; yield E      (nothing after the loop, one yield, last in the body)
+    else None."""
+    body = _body_wo_doc(fnode)
+    if not body or not isinstance(body[-1], (ast.For, ast.While)) or body[-1].orelse:
+        return None
+    loop = body[-1]
+    pre = body[:-1]
+    ys = [n for n in _walk_no_defs(fnode) if isinstance(n, (ast.Yield, ast.YieldFrom, ast.Await))]
+    if len(ys) != 1 or not isinstance(ys[0], ast.Yield):
+        return None
+    last = loop.body[-1]
+    if not (isinstance(last, ast.Expr) and last.value is ys[0]):
+        return None
+    if any(isinstance(n, (ast.Return, ast.Break)) for st in loop.body for n in ast.walk(st)) or any(
+            isinstance(n, (ast.Return, ast.For, ast.While, ast.Try, ast.With)) for st in pre for n in ast.walk(st)):
+        return None
+    # a `continue` in a nested loop of the body is fine; at the loop's own level it skips the yield, as in the generator
+    return pre, loop, len(loop.body) - 1
+
+
+def _inline_generator(h: Helper, trees, imports) -> Tuple[int, int]:
+    """`for T in h(args): BODY` with h a simple generator (see _simple_generator_shape) becomes h's own loop with `T = E; BODY` in
+    place of `yield E`.  BODY's break / continue / else keep their meaning: the generator's loop is the only loop and the yield is
+    its last statement."""
+    shape = _simple_generator_shape(h.node)
+    n_done = 0
+    if shape is not None:
+        for rel, tree in trees.items():
+            if rel != h.rel and imports.get(rel, {}).get(h.name) != h.rel and h.cls is None:
+                continue
+            need = []
+            if rel != h.rel:
+                need = _cross_module_imports(h, rel, trees)
+                if need is None:
+                    continue
+            changed = False
+            for key, fnode, cls, outer in list(function_keys(rel, tree)):
+                if fnode is h.node:
+                    continue
+                for body in _bodies(fnode):
+                    for idx, st in enumerate(list(body)):
+                        if not (isinstance(st, ast.For) and isinstance(st.iter, ast.Call)
+                                and _is_call_of(h, st.iter, cls, rel, imports, False)):
+                            continue
+                        call = st.iter
+                        try:
+                            binding = _bind(h, call, skip_first=(h.cls is not None and not h.static))
+                        except Unsupported:
+                            continue
+                        if any(b[0].startswith("**") for b in binding):
+                            continue
+                        fn = copy.deepcopy(h.node)
+                        pre, loop, yi = _simple_generator_shape(fn)
+                        caller_names = _all_names(fnode)
+                        stored = _stored_names(fn)
+                        mapping = {}
+                        assigns = []
+                        tag = h.name.strip("_") or "gen"
+                        for p_, v in binding:
+                            if v is None:
+                                continue
+                            same = isinstance(v, ast.Name) and v.id == p_
+                            if same and p_ not in stored:
+                                continue
+                            new = p_
+                            if p_ in caller_names:
+                                new = f"{p_}__{tag}"
+                                mapping[p_] = new
+                            assigns.append(_mk_assign([ast.Name(id=new, ctx=ast.Store())], copy.deepcopy(v), call))
+                        for n_ in sorted(stored - {b[0] for b in binding}):
+                            if n_ in caller_names:
+                                mapping[n_] = f"{n_}__{tag}"
+                        ren = _Rename(mapping)
+                        pre2 = [x for x in (ren.visit(s_) for s_ in pre) if x is not None]
+                        loop2 = ren.visit(loop)
+                        yv = loop2.body[yi].value.value or ast.Constant(value=None)
+                        loop2.body = loop2.body[:yi] + [_mk_assign([st.target], yv, st)] + list(st.body)
+                        loop2.orelse = list(st.orelse)
+                        new_stmts = assigns + pre2 + [ast.fix_missing_locations(ast.copy_location(loop2, st))]
+                        pos = body.index(st)
+                        body[pos:pos + 1] = new_stmts
+                        n_done += 1
+                        changed = True
+            if changed and need:
+                tree.body[:0] = need
+    return n_done, _references_left(h, trees, imports)
 
 
 def _is_contextmanager(h: Helper) -> bool:
